@@ -203,14 +203,14 @@ structure Key where
   cell : Option Cell := none
   deriving Repr, DecidableEq, Inhabited
 
-/-- an entry of `commandAofs` / `aofLocks` (the two maps are filled and emptied together). `aofed`, `oks` are history variables: which
-positive reports were counted for it since it was registered; no transition reads them. -/
+/-- an entry of `commandAofs` / `aofLocks` (the two maps are filled and emptied together). `oks` is a history variable: who sent the
+positive reports counted for it since it was registered (`none` = the leader's own flush, `some f` = follower f, in order, duplicates
+included); no transition reads it. -/
 structure Ent where
   id : Nat
   req : Nat
   hid : Nat
-  aofed : Bool := false
-  oks : List Nat := []
+  oks : List (Option Nat) := []
   deriving Repr, DecidableEq, Inhabited
 
 /-- what `AofChannel.Push` was handed and the channel has not delivered yet -/
@@ -697,6 +697,13 @@ def opPush (db : DB) (k : Nat) (werr : Bool) : DB × List Reply :=
 
 def decU8 (n : Nat) : Nat := if n = 0 then 255 else n - 1
 
+/-- history variables of the entry the report was looked up under (the first one with that id) -/
+def noteOk (id : Nat) (who : Option Nat) : List Ent → List Ent
+  | [] => []
+  | x :: xs =>
+    if x.id == id then { x with oks := x.oks ++ [who] } :: xs
+    else x :: noteOk id who xs
+
 /-- `ProcessLeaderAofed` / `ProcessLeaderAcked` (the same code twice); `who` = `none`: the leader's own flush, `some f`: follower f -/
 def opReport (db : DB) (id : Nat) (who : Option Nat) (ok : Bool) : DB × List Reply :=
   match db.findId id with
@@ -706,9 +713,7 @@ def opReport (db : DB) (id : Nat) (who : Option Nat) (ok : Bool) : DB × List Re
     if !ok || !r.pending then ackDone (db.dropEnt id) e.hid false
     else
       let db1 := db.modR e.hid (fun r => { r with ack := decU8 r.ack })
-      if decU8 r.ack > 0 then
-        ({ db1 with tab := db1.tab.map (fun x => if x.id == id then
-            (match who with | none => { x with aofed := true } | some f => { x with oks := x.oks ++ [f] }) else x) }, [])
+      if decU8 r.ack > 0 then ({ db1 with tab := noteOk id who db1.tab }, [])
       else ackDone (db1.dropEnt id) e.hid true
 
 def opAofed (db : DB) (id : Nat) (ok : Bool) : DB × List Reply := if db.leader then opReport db id none ok else (db, [])
